@@ -37,21 +37,24 @@ def encPrims (L : List Prim) : Sexp := .list (L.map encPrim)
 def encTys (L : List Ty) : Sexp := .list (L.map encTy)
 
 def handle : Sexp → Option Sexp
-  | .list [.atom "c14.inst", b, .list ps] => do
+  -- `fx` = 1: the implementation contains the repair of C14-F4 (probed by the harness)
+  | .list [.atom "c14.inst", fx, b, .list ps] => do
+      let fx := (← fx.nat?) != 0
       let b ← b.nat?
       let P ← allSome decPrim ps
       let U := typeUniverse (basicTypes P)
       let pre := sumPass (varPass U b P)
-      let once := unitPass pre
+      let once := unitPass fx pre
       pure (.list [
         .list [.atom "model", encPrims once],
-        .list [.atom "twice", encPrims (instantiate once b)],
+        .list [.atom "twice", encPrims (instantiate fx once b)],
         .list [.atom "spec", encPrims (specInstances P b)],
         .list [.atom "universe", encTys U],
         .list [.atom "specuniverse", encTys (specUniverse P)],
         .list [.atom "unitsafe", ofBool (pre.all (fun p => unitSafe p.2))],
         .list [.atom "wf", ofBool (P.all (fun p => Ty.wf p.2))]])
-  | .list [.atom "c14.ty", t] => do
+  | .list [.atom "c14.ty", fx, t] => do
+      let fx := (← fx.nat?) != 0
       let t ← decTy t
       let (bs, vs) := (dedup (basics t), dedup (polys t))
       pure (.list [
@@ -63,7 +66,7 @@ def handle : Sexp → Option Sexp
         .list [.atom "basics", encTys bs],
         .list [.atom "vars", encTys vs],
         .list [.atom "versions", encTys (versions t)],
-        .list [.atom "nounit", encTy (withoutUnit t)],
+        .list [.atom "nounit", encTy (withoutUnit fx t)],
         .list [.atom "dropunit", encTy (dropUnit t)],
         .list [.atom "hassum", ofBool (Ty.hasSum t)]])
   | .list [.atom "c14.rel", q, o] => do
